@@ -375,7 +375,8 @@ theorem nextActivation_mem (p : ActSlot ℝ) (h act adot : ℝ) (hl : p.actlimit
 theorem nextActivation_euler (p : ActSlot ℝ) (h act adot : ℝ) (h1 : p.dyntype ≠ RK4.mjDYN_FILTEREXACT)
     (h2 : p.dyntype ≠ RK4.mjDYN_DCMOTOR) :
     nextActRaw p h act adot = act + h * adot := by
-  simp only [nextActRaw, if_neg h1, if_neg h2]; ring
+  have h1' : ¬ (p.dyntype = RK4.mjDYN_FILTEREXACT ∧ p.offset = p.actnum - 1) := fun hh => h1 hh.1
+  simp only [nextActRaw, if_neg h1', if_neg h2]; ring
 
 theorem filterExact_eq (t h act u : ℝ) (ht : minval ≤ t) :
     filterExact t h act ((u - act) / t) = act + (u - act) * (1 - Real.exp (-h / t)) := by
